@@ -18,9 +18,9 @@ RULE = ('case = one call of type_infer: skeletons obtained by erasing generated 
 ASSUMPTIONS = ['the declared type of a constant is read from theory.thy term_sig / context defs (data tables)',
                'exact recovery is demanded only when inference succeeds; failure must be TypeInferenceException '
                '(or TheoryException for unknown constants)']
-REQUIRED = {'quick': {'calls_observed': 8000, 'returns_judged': 3000, 'gen_erasures': 2500, 'gen_illtyped': 300,
+REQUIRED = {'quick': {'gen_deep_chain_terms': 300, 'calls_observed': 8000, 'returns_judged': 3000, 'gen_erasures': 2500, 'gen_illtyped': 300,
                       'lib_calls_observed': 1500, 'exact_recoveries': 800, 'hist_inferences': 200},
-            'thorough': {'calls_observed': 150000, 'returns_judged': 60000, 'gen_erasures': 50000, 'gen_illtyped': 6000,
+            'thorough': {'gen_deep_chain_terms': 6000, 'calls_observed': 150000, 'returns_judged': 60000, 'gen_erasures': 50000, 'gen_illtyped': 6000,
                          'lib_calls_observed': 30000, 'exact_recoveries': 15000, 'hist_inferences': 5000}}
 SHARD_TIMEOUT = {'quick': 1200, 'thorough': 7200}
 NONE = ('none',)
@@ -242,6 +242,48 @@ def numerals_ok(s):
     return True
 
 
+def deep_chain_term(rng):
+    """a closed formula whose binder types can only be found by following a CHAIN of instantiations: a bound variable
+    is equated with a value whose type is built by nesting type constructors (list of list of ..., functions into
+    lists, sets of lists), and other bound variables are tied to it through functions / append / membership"""
+    B, NAT = S.BOOL, S.NAT
+    listT = lambda T: ('tc', 'list', (T,))
+    base = rng.choice([NAT, B, ('tv', 'a'), S.INT if hasattr(S, 'INT') else NAT])
+    depth = rng.choice([1, 2, 2, 3, 3])
+
+    def nested(T, d, leaf):
+        """(term, type) of a list literal nested d deep"""
+        if d == 0:
+            return leaf, T
+        inner, Ti = nested(T, d - 1, leaf)
+        LT = listT(Ti)
+        return S.mk_comb(('const', 'cons', S.funs(Ti, LT, LT)), inner, ('const', 'nil', LT)), LT
+    leaf = {NAT: ('const', 'zero', NAT), B: ('const', 'true', B)}.get(base, ('var', 'c0', base))
+    v, VT = nested(base, depth, leaf)
+    EQ = lambda T, a, b: S.mk_comb(('const', 'equals', S.funs(T, T, B)), a, b)
+    IMP = lambda a, b: S.mk_comb(('const', 'implies', S.funs(B, B, B)), a, b)
+    ALL = lambda nm, T, body: ('comb', ('const', 'all', S.fun(S.fun(T, B), B)), ('abs', nm, T, body))
+    shape = rng.choice(['append', 'fun', 'fun2', 'eq-chain'])
+    if shape == 'append':
+        # !xs. !ys. xs @ ys = ys --> ys = v        (xs, ys : VT)
+        APP = ('const', 'append', S.funs(VT, VT, VT))
+        body = IMP(EQ(VT, S.mk_comb(APP, ('bound', 1), ('bound', 0)), ('bound', 0)), EQ(VT, ('bound', 0), v))
+        return ALL('xs', VT, ALL('ys', VT, body))
+    if shape == 'fun':
+        # !x. !f. f x = leaf --> x = v             (x : VT, f : VT => base)
+        FT = S.fun(VT, base)
+        body = IMP(EQ(base, ('comb', ('bound', 0), ('bound', 1)), leaf), EQ(VT, ('bound', 1), v))
+        return ALL('x', VT, ALL('f', FT, body))
+    if shape == 'fun2':
+        # !g. !x. !y. g x = y --> y = v --> x = leaf          (g : base => VT)
+        GT = S.fun(base, VT)
+        body = IMP(EQ(VT, ('comb', ('bound', 2), ('bound', 1)), ('bound', 0)), IMP(EQ(VT, ('bound', 0), v), EQ(base, ('bound', 1), leaf)))
+        return ALL('g', GT, ALL('x', base, ALL('y', VT, body)))
+    # !a. !b. !c. a = b --> b = c --> c = v
+    body = IMP(EQ(VT, ('bound', 2), ('bound', 1)), IMP(EQ(VT, ('bound', 1), ('bound', 0)), EQ(VT, ('bound', 0), v)))
+    return ALL('a1', VT, ALL('b1', VT, ALL('c1', VT, body)))
+
+
 def run_gen(ctx, spec):
     from syntax import infertype
     rng = ctx.rng
@@ -252,9 +294,13 @@ def run_gen(ctx, spec):
                       weights={'const': 8, 'atom': 3, 'app': 1, 'abs': 3})
         T = g.rand_type() if rng.random() < 0.5 else S.BOOL
         s = g.gen(T, rng.choice([1, 2, 3, 3, 4]))
+        directed = k % 5 == 0
+        if directed:
+            s = deep_chain_term(rng)
+            ctx.count('gen_deep_chain_terms')
         if not c07.term_ok(s):
             continue
-        level = rng.choice([0, 0, 1, 2, 2])
+        level = rng.choice([0, 0, 1, 2, 2]) if not directed else 0
         sk = erase(s, level, rng)
         c07.set_ctx([s])
         Mon.expect, Mon.level = s, level
